@@ -256,7 +256,11 @@ class Hist(Scenario):
         chosen = self.rng.sample(changed, k)
         for f in chosen:
             self.g("add", "--", f)
-        self.g("commit", "-q", "--allow-empty", "-m", "partial")
+        if self.profile.get("unstaged_replacement_hunks", True):
+            self.g("commit", "-q", "--allow-empty", "-m", "partial")
+        else:
+            # finding D75 (see op_destructive / mv): commit exactly the chosen paths, not whatever else happens to be staged
+            self.g("commit", "-q", "--allow-empty", "-m", "partial", "--", *chosen)
         self.ops.append("commit:files")
 
     def stage_hunk_subset(self, f):
